@@ -2,6 +2,7 @@ package props
 
 import (
 	"fmt"
+	"math"
 	"os"
 	"path/filepath"
 	"sort"
@@ -103,15 +104,15 @@ func firstLines(s string, n int) string {
 
 // Cfg is a serialisable VM configuration used by cases.
 type Cfg struct {
-	WoD, CoC, Fate, DC         bool
+	WoD, CoC, Fate, DC          bool
 	NoStmts, NoNDice, NoBitwise bool
-	IgnoreDiv0                 bool
-	Min, Max                   bool
-	DefSide                    string
-	OpLimit                    int64
-	ParseLimit                 uint64
-	Lang                       int
-	Seed                       uint64 // 0 = unseeded
+	IgnoreDiv0                  bool
+	Min, Max                    bool
+	DefSide                     string
+	OpLimit                     int64
+	ParseLimit                  uint64
+	Lang                        int
+	Seed                        uint64 // 0 = unseeded
 }
 
 func (c Cfg) String() string {
@@ -223,4 +224,122 @@ func errText(err error) string {
 		return ""
 	}
 	return err.Error()
+}
+
+// Canon renders a value as a canonical tree text: type-exact, floats bit-wise, dict keys
+// sorted, functions by (name, params, body text), computed values by (expr, attributes).
+func Canon(v *ds.VMValue) string { return canonD(v, 0) }
+
+func canonD(v *ds.VMValue, depth int) string {
+	if v == nil {
+		return "NIL"
+	}
+	if depth > 24 {
+		return "…"
+	}
+	switch v.TypeId {
+	case ds.VMTypeInt:
+		i, _ := v.ReadInt()
+		return fmt.Sprintf("i%d", int64(i))
+	case ds.VMTypeFloat:
+		f, _ := v.ReadFloat()
+		if f != f {
+			return "fNaN"
+		}
+		return fmt.Sprintf("f%x", mathFloat64bits(f))
+	case ds.VMTypeString:
+		s, _ := v.ReadString()
+		return fmt.Sprintf("s%q", s)
+	case ds.VMTypeNull:
+		return "n"
+	case ds.VMTypeArray:
+		a, ok := v.ReadArray()
+		if !ok || a == nil {
+			return "[?]"
+		}
+		parts := make([]string, 0, len(a.List))
+		for _, e := range a.List {
+			parts = append(parts, canonD(e, depth+1))
+		}
+		return "[" + strings.Join(parts, ",") + "]"
+	case ds.VMTypeDict:
+		dd, ok := v.ReadDictData()
+		if !ok || dd == nil || dd.Dict == nil {
+			return "{?}"
+		}
+		return canonMapD(dd.Dict, depth+1)
+	case ds.VMTypeFunction:
+		fd, ok := v.ReadFunctionData()
+		if !ok || fd == nil {
+			return "fn?"
+		}
+		return fmt.Sprintf("fn(%s|%s|%q)", fd.Name, strings.Join(fd.Params, ","), fd.Expr)
+	case ds.VMTypeComputedValue:
+		cd, ok := v.ReadComputed()
+		if !ok || cd == nil {
+			return "cv?"
+		}
+		at := "{}"
+		if cd.Attrs != nil {
+			at = canonMapD(cd.Attrs, depth+1)
+		}
+		return fmt.Sprintf("cv(%q|%s)", cd.Expr, at)
+	case ds.VMTypeNativeFunction:
+		fd, ok := v.ReadNativeFunctionData()
+		if !ok || fd == nil {
+			return "nfn?"
+		}
+		self := ""
+		if fd.Self != nil {
+			self = "@" + canonD(fd.Self, depth+1)
+		}
+		return "nfn(" + fd.Name + self + ")"
+	case ds.VMTypeNativeObject:
+		od, ok := v.ReadNativeObjectData()
+		if !ok || od == nil {
+			return "nobj?"
+		}
+		return "nobj(" + od.Name + ")"
+	}
+	return fmt.Sprintf("t%d", v.TypeId)
+}
+
+func canonMapD(m *ds.ValueMap, depth int) string {
+	if depth > 24 {
+		return "…"
+	}
+	mm := map[string]string{}
+	m.Range(func(k string, e *ds.VMValue) bool { mm[k] = canonD(e, depth+1); return true })
+	keys := make([]string, 0, len(mm))
+	for k := range mm {
+		keys = append(keys, k)
+	}
+	sort.Strings(keys)
+	parts := make([]string, 0, len(keys))
+	for _, k := range keys {
+		parts = append(parts, fmt.Sprintf("%q:%s", k, mm[k]))
+	}
+	return "{" + strings.Join(parts, ",") + "}"
+}
+
+// CanonVars renders the variables of a VM.
+func CanonVars(vm *ds.Context) string { return canonMapD(vm.Attrs, 0) }
+
+func mathFloat64bits(f float64) uint64 { return math.Float64bits(f) }
+
+// StLog records CallbackSt invocations.
+type StLog struct{ Calls []string }
+
+func (l *StLog) Install(vm *ds.Context) {
+	vm.Config.CallbackSt = func(_type string, name string, val *ds.VMValue, extra *ds.VMValue, op string, detail string) {
+		l.Calls = append(l.Calls, fmt.Sprintf("%s|%s|%s|%s|%s|%s", _type, name, Canon(val), Canon(extra), op, detail))
+	}
+}
+
+func seedOf(vm *ds.Context) string {
+	b, err := vm.GetCurSeed()
+	if err != nil {
+		return "err:" + err.Error()
+	}
+	return fmt.Sprintf("%x", b)
 }
